@@ -25,7 +25,7 @@ type c08Batch struct {
 
 func c08Alphabet() []c08Batch {
 	var out []c08Batch
-	for _, origin := range []string{"", "N1", "K1", "other"} {
+	for _, origin := range []string{"", "N1", "K1", "N2", "other"} {
 		for _, target := range []string{"N1", "K1", "GK", "S"} {
 			o, tg := origin, target
 			out = append(out, c08Batch{o, tg, false, func(m float64) data.Points {
@@ -86,6 +86,10 @@ func c08Body(t *testing.T, depth int, order bool) mc.Body {
 					return err
 				}
 				if err := mk("GK", "K1", "vGrand", data.Point{Type: "description", Text: "gk", Origin: "creator"}); err != nil {
+					return err
+				}
+				// a second client of the same type exists next to it (the manager runs one client per node)
+				if err := mk("N2", root, "vNode", data.Point{Type: "description", Text: "n2", Origin: "creator"}); err != nil {
 					return err
 				}
 				return mk("S", root, "other", data.Point{Type: "description", Text: "s", Origin: "creator"})
@@ -278,7 +282,7 @@ func TestC08(t *testing.T) {
 			depth = 3
 		}
 		r.Explore(mc.Config{Name: fmt.Sprintf("batch-sequences-d%d", depth), Serial: true, SplitDepth: 1, SelfCheckEvery: 53,
-			Rule: fmt.Sprintf("all sequences of %d batches over a 23-batch alphabet: author in {\"\", the client's id, a child's id, another party} x target in {client node, child, grand-child, unrelated sibling}, one- and two-point batches, an edge-point batch; each batch carries one origin and a unique marker; Points/EdgePoints callbacks of the instrumented client compared with the accepted history (told exactly once and in order for foreign changes in the subtree, never for its own), and the folded configuration compared with Decode of the store's node", depth)},
+			Rule: fmt.Sprintf("all sequences of %d batches over a 27-batch alphabet: author in {\"\", the client's id, a child's id, a sibling client's id, another party} x target in {client node, child, grand-child, unrelated sibling}, one- and two-point batches, an edge-point batch; each batch carries one origin and a unique marker; Points/EdgePoints callbacks of the instrumented client compared with the accepted history (told exactly once and in order for foreign changes in the subtree, never for its own), and the folded configuration compared with Decode of the store's node", depth)},
 			c08Body(t, depth, false))
 		r.Explore(mc.Config{Name: "delivery-order-d2", Serial: true, SplitDepth: 1, DevBound: 1,
 			Rule: "the same alphabet, sequences of 2 batches, with one scheduling deviation (another pending delivery first, or the second batch written before the system is quiescent)"},
